@@ -35,7 +35,24 @@ def classes_from_hits(names, hits):
     return {n: find(n) for n in names}
 
 
+class _NeedForks(Exception):
+    pass
+
+
 def run(tier):
+    """Fast path: measurements and histories run in worker processes that reset einx's known long-lived state between them,
+    cross-checked against real pristine forks.  If the cross-check fails, or the fast path sees any deviation that is not a
+    recorded finding, some state survives the reset: everything is then redone with one pristine fork per measurement /
+    history, and only that run is reported."""
+    try:
+        return _run(tier, fork=False)
+    except _NeedForks as e:
+        print("C06: %s -> repeating all measurements and histories in pristine forks" % e)
+        return _run(tier, fork=True)
+
+
+def _run(tier, fork):
+    sfx = "_fork_chunk" if fork else "_chunk"
     rep = common.Report("C06", tier)
     rep.rule = ("alphabet of %d concrete calls; histories = all ordered pairs + TLC-simulated triples, each in a pristine forked interpreter; "
                 "non-trivial = the history contains a cache hit between two different calls or follows a failing call") % len(DS.calls())
@@ -44,19 +61,21 @@ def run(tier):
     DS.warm_imports()
     names = sorted(DS.calls())
     ops = {n: DS.calls()[n][0] for n in names}
-    singles = {r["name"]: r for r in common.parallel_map("measure_single_chunk", DS, names)}
+    singles = {r["name"]: r for r in common.parallel_map("measure_single" + sfx, DS, names)}
     for r in singles.values():
         if "machinery_error" in r:
             raise common.MachineryError(str(r))
     pairs = [(a, b) for a in names for b in names if a != b and ops[a] == ops[b] and ops[a] != "solve"]
-    pres = common.parallel_map("measure_pair_chunk", DS, pairs)
+    pres = common.parallel_map("measure_pair" + sfx, DS, pairs)
     # c2 is a hit after c1 iff nothing was compiled for it although a fresh c2 compiles, or although its outcome changed
     hits = {tuple(r["pair"]): bool(r["nocompile"] and (singles[r["pair"][1]]["compiled"] > 0 or r["out2"] != singles[r["pair"][1]]["fresh"])) for r in pres}
     # the in-process reset used for the bulk of the measurements is cross-checked against real pristine forks
     forked = {r["name"]: r for r in common.parallel_map("measure_single_fork_chunk", DS, names[:: (4 if tier == "quick" else 1)])}
     for n, r in forked.items():
         if (r["fresh"], r["graph"]) != (singles[n]["fresh"], singles[n]["graph"]):
-            raise common.MachineryError("reset_pristine() is not equivalent to a fresh fork for %s: %s vs %s" % (n, r, singles[n]))
+            if fork:
+                raise common.MachineryError("two pristine forks disagree on %s: %s vs %s" % (n, r, singles[n]))
+            raise _NeedForks("resetting einx's known caches is not equivalent to a fresh interpreter for call %s" % n)
     key = classes_from_hits(names, hits)
     art = {n: ("none" if singles[n]["graph"].startswith("exc:") or singles[n]["graph"] == "none" else singles[n]["graph"]) for n in names}
     fresh = {n: singles[n]["fresh"] for n in names}
@@ -97,7 +116,7 @@ def run(tier):
             hist3.append([rng.choice(names) for _ in range(3)])
     if tier == "quick":
         hist2 = [h for h in hist2 if ops[h[0]] == ops[h[1]] or rng.random() < 0.15]
-    results = common.parallel_map("run_history_chunk", DS, hist2 + hist3)
+    results = common.parallel_map("run_history" + sfx, DS, hist2 + hist3)
     # a sample of the histories also runs in real forks and must agree with the in-process runs
     sample = (hist2 + hist3)[:: (40 if tier == "quick" else 10)]
     fres = common.parallel_map("run_history_fork_chunk", DS, sample)
@@ -107,8 +126,11 @@ def run(tier):
         a = [o["outcome"] for o in fr["outs"]]
         b = [o["outcome"] for o in results[idx[json.dumps(h)]]["outs"]]
         if a != b:
-            raise common.MachineryError("history %s: forked run %s differs from in-process run %s" % (h, a, b))
+            if fork:
+                raise common.MachineryError("history %s: two pristine forks disagree: %s vs %s" % (h, a, b))
+            raise _NeedForks("history %s gives %s in a pristine fork but %s after the in-process reset" % (h, a, b))
     rep.extra["histories_cross_checked_in_forks"] = len(sample)
+    rep.extra["mode"] = "one pristine fork per measurement / history" if fork else "in-process reset of einx's caches, cross-checked against pristine forks"
     confirmed = []
     for h, r in zip(hist2 + hist3, results):
         if "machinery_error" in r:
@@ -132,6 +154,8 @@ def run(tier):
             if ops[c] != "solve" and art[c] != "none" and (o["compiled"] == 0) != pred_hit:
                 rep.violation({"kind": "hit-miss-prediction", "call": c}, {"history": h, "position": i},
                               "specification predicts %s for call %s after %s but the code %s" % ("a hit" if pred_hit else "a miss", c, h[:i], "did not compile" if o["compiled"] == 0 else "compiled"))
+    if rep.violations and not fork:
+        raise _NeedForks("the fast path saw %d deviation(s) that are not recorded findings" % len(rep.violations))
     if model_violation and not confirmed:
         rep.violation({"kind": "model", "invariant": model_violation}, {"tables": {"key": key, "art": art, "fresh": fresh}},
                       "TLC: %s violated for the measured tables, but no replayed history reproduced it\n%s" % (model_violation, res.counterexample()[:3000]))
